@@ -103,7 +103,7 @@ def run(tier):
     run_ = evidence.Run(PID, tier, level="fault_enumeration", rule=RULE)
     rnd = common.rng("c12")
     hs = histories(tier, rnd)
-    for k in ("session_events_observed", "registered_tables_checked", "B_comparisons", "lookup_faults_fired", "line_failpoints_fired", "thread_records_compared", "thread_yields_injected"):
+    for k in ("session_events_observed", "registered_tables_checked", "B_comparisons", "lookup_faults_fired", "line_failpoints_fired", "thread_records_compared", "thread_yields_injected", "thread_balance_checks"):
         run_.need(k)
     with Pool() as pool:
         fresh_cases = {}
@@ -144,6 +144,9 @@ def run(tier):
             for i in range(per // 2):
                 t = TEACH[i % len(TEACH)]
                 cases.append({"sql": script(t + [PROBES[i % len(PROBES)]]), "dialect": "ansi", "metadata": MD, "silent": False, "config": {}})
+                if i % 2 == 0:
+                    # the probe alone: on a provider this thread used before, it must see nothing of that provider's earlier runs
+                    cases.append({"sql": script([PROBES[(i // 2) % len(PROBES)]]), "dialect": "ansi", "metadata": MD, "silent": False, "config": {}})
             random.Random(env.seed() * 100 + r).shuffle(cases)
             tjobs.append({"cases": cases, "nthreads": 16, "seed": env.seed() * 100 + r, "yield_p": 0.05})
         tres = pool.map("vlib.isolation:threads", tjobs, timeout=1800)
@@ -209,6 +212,9 @@ def run(tier):
         tstats["handoff_sites"] = max(tstats["handoff_sites"], r["handoff_sites"])
         tstats["rounds"] += 1
         run_.observe("thread_yields_injected", r["yields"])
+        run_.observe("thread_balance_checks", r.get("balance_checks", 0))
+        for lk in r.get("leaks", []):
+            run_.judge({"case": common.brief(cases[lk["case_index"]]), "threads": 16, "round_seed": j["seed"]}, "session_store_not_empty_after_a_run_in_a_thread", lk, kf_id=None)
         for c, got, (st2, want) in zip(cases, r["records"], ref):
             if got is None or st2 != "ok":
                 run_.inconc("thread record missing")
